@@ -195,6 +195,25 @@ static void compoundSpaces(vf::Runner& R, bool th) {
       d.setParameterValue("value", V[(idx + 1) % V.size()]);
       auditCompound(C_CONST, d, c, ctx + ".setParameterValue(value," + num(V[(idx + 1) % V.size()]) + ")");
       if (d.getCategories().size() != 1 || d.getCategory(0) != V[(idx + 1) % V.size()]) c.fail("compound|constant-value-not-updated|constant", ctx);
+      // restrictions: one that does not hold the constant is refused and must leave the object usable (its own value can be looked up,
+      // an interval that holds it is accepted afterwards); one that holds it is accepted
+      {
+        double v = d.getCategory(0);
+        auto lookupOwn = [&](const std::string& when) {
+          try { double r = d.getValueCategory(v); size_t j = d.getCategoryIndex(v); if (r != v || j > 1) c.fail("compound|constant-look-up-of-its-own-value|constant", ctx + " " + when + ": getValueCategory(" + num(v) + ")=" + num(r) + " getCategoryIndex=" + str(j)); }
+          catch (Exception& e) { c.fail("compound|constant-look-up-of-its-own-value-raises|constant", ctx + " " + when + ": " + e.what()); }
+        };
+        lookupOwn("before any restriction");
+        IntervalConstraint off(v + 4, v + 9, true, true), on(v - 1, v + 1, true, true);
+        c.site("ConstantDistribution::restrictToConstraint");
+        bool refused = false; try { d.restrictToConstraint(off); } catch (Exception&) { refused = true; }
+        if (!refused) c.fail("compound|restriction-that-excludes-the-constant-accepted|constant", ctx + " restrictToConstraint(" + off.getDescription() + ")");
+        auditCompound(C_CONST, d, c, ctx + " after the refused restriction to " + off.getDescription());
+        lookupOwn("after the refused restriction to " + off.getDescription());
+        try { d.restrictToConstraint(on); } catch (Exception& e) { c.fail("compound|restriction-that-holds-the-constant-refused|constant", ctx + " restrictToConstraint(" + on.getDescription() + ") after a refused one: " + e.what()); }
+        auditCompound(C_CONST, d, c, ctx + " after the restriction to " + on.getDescription());
+        lookupOwn("after the restriction to " + on.getDescription());
+      }
       c.nontrivial(); c.tag("constant");
     }, 0.5);
   }
